@@ -96,15 +96,24 @@ OBS = ("values_from", "values_to", "index_from", "index_to", "residuals", "resid
 
 
 def _diff(got, exp):
+    if exp and exp[0] == "raised":
+        return "one-piece-raises-" + exp[1], None, list(exp)
     for name, g, e in zip(OBS, got, exp):
         if g != e:
             return name, g, e
     return None
 
 
+class Raised(Exception):
+    """pyLife raised where the property expects a result"""
+
+
 def _one_piece(detname, prefix):
     det = _new(detname)
-    det.process(np.array(prefix, dtype=float))
+    try:
+        det.process(np.array(prefix, dtype=float))
+    except Exception as e:  # noqa: BLE001
+        return ("raised", type(e).__name__, str(e)[:120])
     return _observe(det)
 
 
@@ -124,11 +133,16 @@ def _bfs_signal(acc, detname, sig, report=True):
             for length in range(1, n - p + 1):
                 d2 = copy.deepcopy(det)
                 chunks_before = d2.recorder.chunks.tolist()
-                d2.process(np.array(sig[p:p + length], dtype=float))
                 acc.transitions += 1
                 acc.evaluations += 1
                 q = p + length
                 h2 = hist + [length]
+                try:
+                    d2.process(np.array(sig[p:p + length], dtype=float))
+                except Exception as e:  # noqa: BLE001
+                    viol.append(("C01/%s/raises-%s" % (detname, type(e).__name__), {"det": detname, "signal": sig, "chunks": h2},
+                                 {"error": str(e)[:200]}))
+                    continue
                 if detname != "FKMDetector" and d2.recorder.chunks.tolist() != chunks_before + [length]:
                     viol.append(("C01/%s/chunks-bookkeeping" % detname, {"det": detname, "signal": sig, "chunks": h2},
                                  {"chunks": d2.recorder.chunks.tolist(), "expected": chunks_before + [length]}))
@@ -157,6 +171,8 @@ def _tp_span(sig):
 
 def _nontrivial(sig, final):
     span = _tp_span(sig)
+    if final[0] == "raised":
+        return False
     return len(final[0]) >= 1 and len(sig) >= 3 and span is not None and span[1] > span[0]
 
 
@@ -164,7 +180,10 @@ def _run_flat(detname, sig, chunks):
     det = _new(detname)
     p = 0
     for length in chunks:
-        det.process(np.array(sig[p:p + length], dtype=float))
+        try:
+            det.process(np.array(sig[p:p + length], dtype=float))
+        except Exception as e:  # noqa: BLE001
+            raise Raised(type(e).__name__, str(e)[:200])
         p += length
     return det
 
@@ -191,7 +210,11 @@ def _flat_signal(acc, detname, sig):
     acc.evaluations += 1
     finals = set()
     for comp in compositions(n):
-        det = _run_flat(detname, sig, comp)
+        try:
+            det = _run_flat(detname, sig, comp)
+        except Raised as r:
+            viol.append(("C01/%s/raises-%s" % (detname, r.args[0]), {"det": detname, "signal": sig, "chunks": comp}, {"error": r.args[1]}))
+            continue
         acc.evaluations += len(comp)
         acc.transitions += len(comp)
         acc.max_depth = max(acc.max_depth, len(comp))
@@ -280,7 +303,10 @@ def replay(case):
         return [("C01/chunk_local_index", bad)] if bad else []
     n_done = sum(comp)
     one = _one_piece(detname, sig[:n_done])
-    det = _run_flat(detname, sig, comp)
+    try:
+        det = _run_flat(detname, sig, comp)
+    except Raised as r:
+        return [("C01/%s/raises-%s" % (detname, r.args[0]), {"error": r.args[1]})]
     obs = _observe(det)
     d = _diff(obs, one)
     if d is not None:
